@@ -89,6 +89,11 @@ TEXT = {
   technique='fault enumeration: every GPT header field x boundary values x CRC recomputed/stale x primary/backup/both, 2-field size combinations, entry and MBR-slot corruptions, truncations, plus random images; oracle = no panic, watchdog, heap-allocation bound, returned tables only from CRC-valid data (independent parser); thorough adds a native go fuzz campaign',
   level_text='Finite fault families enumerated on each generated valid base image (quick: every 4th member with a seeded phase; thorough: all), run in memory-capped child processes with a per-case journal so a dying child still yields a replay.',
   level_note='Trusts the harness CRC recomputation and independent parser; allocation is measured with runtime/metrics.'),
+ 'C18': dict(
+  design_ref='DESIGN.md §4 C18',
+  technique='fault enumeration guided by the read set: on 10 valid base images (fat12/16/32, ext4 plain / metadata_csum / made by mke2fs, iso9660 plain / Rock Ridge, squashfs uncompressed / gzip) every aligned 1/2/4/8-byte word that a clean open + walk + read-everything consumes (minus file payload) is replaced by each of 13 boundary values, plus FAT chain self-links, cycles, out-of-range, free and reserved links in either FAT copy; oracle = no panic, watchdog, no endless (0, nil) read, heap held at one moment <= 32 x image + 32 MiB',
+  level_text='Finite fault family enumerated per base image (quick: every 64th word with a seeded phase; thorough: all), in memory-capped child processes with a per-probe journal so that a dying child still yields a replay.',
+  level_note='Single-word faults without checksum repair; the bases are small fixed trees (nested directories, fragmented files, an empty file, a long name, a symlink), not generated ones. Trusts the instrumented device read log to name what the reader consumes.'),
  'C10': dict(
   design_ref='DESIGN.md §4 C10',
   technique='property-based testing: rapid-generated Read/Seek/Close sequences against a bytes.Reader-equivalent position model on files of known content, 13 filesystem variants',
